@@ -1,5 +1,6 @@
 """worker process: runs the cases of one shard through the property's run_case and writes one JSON line per case"""
 import json
+import os
 import sys
 import time
 import traceback
@@ -29,7 +30,24 @@ def start_linecov(pkg):
         return mon.DISABLE
 
     mon.register_callback(tid, mon.events.LINE, cb)
-    mon.set_events(tid, mon.events.LINE)
+    ev = mon.events.LINE
+    if os.environ.get("PYXABMON_BRANCHCOV"):
+        # diagnostic (tools/branchcov.sh): which directions of which conditional jumps were taken; no DISABLE here
+        # (it would silence both directions of the instruction), so this costs a callback per executed branch
+        lines = {}
+
+        def br(code, src, dst):
+            f = code.co_filename
+            if not f.startswith(pkg):
+                return mon.DISABLE
+            m = lines.get(code)
+            if m is None:
+                m = lines[code] = {s_: l for s_, e_, l in code.co_lines() if l is not None for s_ in range(s_, e_, 2)}
+            hits.add((f[n:], -m.get(src, 0), m.get(dst, 0)))
+
+        mon.register_callback(tid, mon.events.BRANCH, br)
+        ev |= mon.events.BRANCH
+    mon.set_events(tid, ev)
     return hits
 
 
